@@ -36,6 +36,7 @@ func checkC08(p *Prog, c *Check) {
 	c08Dirty(p, c)
 	c08Outbox(p, c)
 	c08Commitment(p, c)
+	c08Restart(p, c)
 }
 
 func c08TX(p *Prog, c *Check) {
@@ -585,4 +586,175 @@ func c08Commitment(p *Prog, c *Check) {
 		okH := sfi.T(receiverOf(ci)).s == sfi.T(sp.Params[2]).s
 		c.Result(okH, rule, fmt.Sprintf("startPhase1Dealing:schedule#%d", i+1), p.siteOf(ci), shortFn(sp), "ScheduleShutterMessage(poly commitment)", "the commitment is queued through a different handle than the block transaction's", "queries parameter")
 	}
+}
+
+// c08Restart: what a restart reconstructs is what the uninterrupted keyper holds.
+//   - Save writes, for the map entry (eon, a), the row {Eon: eon, Puredkg: EncodePureDKG(a.pure)};
+//     EncodePureDKG gob-encodes its argument itself (not a trimmed copy) and DecodePureDKG returns
+//     the object it decoded into;
+//   - loadDKG rebuilds st.dkg[row.Eon] with pure = DecodePureDKG(row.Puredkg) and every other field
+//     from the column in which the live path (handleEonStarted) stored the value it put into the same
+//     field (startHeight: the eon row's Height; keypers: the batch config of the eon row's config index).
+func c08Restart(p *Prog, c *Check) {
+	rule := "C08-R6"
+	// codec
+	for _, spec := range []string{"shdb.EncodePureDKG", "shdb.EncodePureDKGResult"} {
+		fn, err := p.Func(spec)
+		if !c.Must(err) {
+			continue
+		}
+		c.Analysed(shortFn(fn))
+		fi := p.Info(fn)
+		encs := callsTo(fn, "(*encoding/gob.Encoder).Encode")
+		ok := len(encs) == 1
+		why := fmt.Sprintf("expected one gob Encode call, found %d", len(encs))
+		if ok {
+			arg := unbox(encs[0].Common().Args[1])
+			if arg != ssa.Value(fn.Params[0]) {
+				ok, why = false, "the encoded value is not the function's argument itself: "+fi.T(arg).s
+			}
+			// the argument is not modified
+			for _, b := range fn.Blocks {
+				for _, in := range b.Instrs {
+					if st, isSt := in.(*ssa.Store); isSt {
+						if fa, isFA := st.Addr.(*ssa.FieldAddr); isFA && fa.X == ssa.Value(fn.Params[0]) {
+							ok, why = false, "the state is modified while being encoded"
+						}
+					}
+				}
+			}
+			for _, r := range returnsOf(fn) {
+				if fi.errIsNil(r.Results[1], r, 0) == no {
+					continue
+				}
+				if !fi.mustPassSuccess(encs[0].(*ssa.Call), r.Block()) {
+					ok, why = false, "bytes are returned without a successful Encode"
+				}
+			}
+		}
+		c.Result(ok, rule, fnName(fn)+":encodes-argument", p.Rel(fn.Pos()), shortFn(fn), "gob encoding of the DKG state", why, "Encode(p) of the parameter, unmodified")
+	}
+	if fn, err := p.Func("shdb.DecodePureDKG"); c.Must(err) {
+		fi := p.Info(fn)
+		c.Analysed(shortFn(fn))
+		decs := callsTo(fn, "(*encoding/gob.Decoder).Decode")
+		ok := len(decs) == 1
+		why := "expected one gob Decode call"
+		if ok {
+			target := fi.T(unbox(decs[0].Common().Args[1]))
+			for _, r := range returnsOf(fn) {
+				if fi.errIsNil(r.Results[1], r, 0) == no {
+					continue
+				}
+				if fi.T(r.Results[0]).s != target.s || !fi.mustPassSuccess(decs[0].(*ssa.Call), r.Block()) {
+					ok, why = false, "the returned state is not the object the bytes were decoded into"
+				}
+			}
+		}
+		c.Result(ok, rule, "DecodePureDKG:returns-decoded", p.Rel(fn.Pos()), shortFn(fn), "gob decoding of the DKG state", why, "returns the Decode target after success")
+	}
+	// Save row
+	if sv, err := p.Func("keyper/smobserver.ShuttermintState.Save"); c.Must(err) {
+		fi := p.Info(sv)
+		n := 0
+		for _, ci := range callsTo(sv, "InsertPureDKG") {
+			n++
+			flds := fi.structLitFields(ci.Common().Args[len(ci.Common().Args)-1])
+			ok := false
+			why := "the row written is not {Eon: the map key, Puredkg: EncodePureDKG(the entry's pure)}"
+			for _, l := range loopsOf(p, sv) {
+				if !l.IsMap || !l.Blocks[ci.Block()] {
+					continue
+				}
+				b := Binds{}
+				if flds != nil && flds["Puredkg"] != nil && flds["Eon"] != nil && ParsePat("EncodePureDKG($a.pure)#0").Match(flds["Puredkg"], b) {
+					// $a is the value, Eon the key of the same range
+					nt := fi.T(l.Next)
+					if b["a"].K == TRes && b["a"].Idx == 2 && b["a"].Sub[0].s == nt.s {
+						k := stripConv(flds["Eon"])
+						if k.K == TRes && k.Idx == 1 && k.Sub[0].s == nt.s {
+							ok = true
+						}
+					}
+				}
+			}
+			c.Result(ok, rule, fmt.Sprintf("Save:row#%d", n), p.siteOf(ci), shortFn(sv), "InsertPureDKG row", why, "Eon = key, Puredkg = EncodePureDKG(value.pure)")
+		}
+		c.Floor(rule+".save", n, 1)
+	}
+	// live construction vs. reconstruction
+	live, err1 := p.Func("keyper/smobserver.ShuttermintState.handleEonStarted")
+	load, err2 := p.Func("keyper/smobserver.ShuttermintState.loadDKG")
+	if !c.Must(err1) || !c.Must(err2) {
+		return
+	}
+	lfi, dfi := p.Info(live), p.Info(load)
+	c.Analysed(shortFn(live))
+	c.Analysed(shortFn(load))
+	findLit := func(fn *ssa.Function, fi *FnInfo) (map[string]*Term, ssa.Instruction) {
+		for _, b := range fn.Blocks {
+			for _, in := range b.Instrs {
+				if al, ok := in.(*ssa.Alloc); ok && strings.HasSuffix(deref(al.Type()).String(), "smobserver.ActiveDKG") {
+					if f := fi.structLitFields(al); len(f) > 0 {
+						return f, al
+					}
+				}
+			}
+		}
+		return nil, nil
+	}
+	lf, lsite := findLit(live, lfi)
+	df, dsite := findLit(load, dfi)
+	if lf == nil || df == nil {
+		c.Undecided("rule %s: the ActiveDKG literal of handleEonStarted or loadDKG was not found", rule)
+		return
+	}
+	// columns the live path stored
+	var insFlds map[string]*Term
+	for _, ci := range callsTo(live, "InsertEon") {
+		insFlds = lfi.structLitFields(ci.Common().Args[len(ci.Common().Args)-1])
+	}
+	if insFlds == nil {
+		c.Undecided("rule %s: handleEonStarted's InsertEon row was not found", rule)
+		return
+	}
+	// startHeight
+	col := ""
+	for name, t := range insFlds {
+		if lf["startHeight"] != nil && stripConv(t).s == stripConv(lf["startHeight"]).s {
+			col = name
+		}
+	}
+	okH := false
+	whyH := "the live path does not store the start height in the eon row"
+	if col != "" {
+		whyH = "the restarted keyper takes the DKG's start height from a different column than the one the live path stored it in (" + col + "): " + termStr(df["startHeight"])
+		okH = df["startHeight"] != nil && ParsePat("GetEon(_, _, $row.Eon)#0."+col).Match(df["startHeight"], Binds{})
+	}
+	c.Result(okH, rule, "loadDKG:startHeight", p.siteOf(dsite), shortFn(load), "ActiveDKG.startHeight after restart", whyH, "GetEon(row.Eon)."+col+" (stored from "+termStr(lf["startHeight"])+")")
+	_ = lsite
+	// pure
+	okP := df["pure"] != nil && ParsePat("DecodePureDKG($row.Puredkg)#0").Match(df["pure"], Binds{})
+	c.Result(okP, rule, "loadDKG:pure", p.siteOf(dsite), shortFn(load), "ActiveDKG.pure after restart", "the restarted state is not the decoded stored state: "+termStr(df["pure"]), "DecodePureDKG(row.Puredkg)")
+	// keypers: both from the batch config of the eon's config index
+	cfgCol := ""
+	for name, t := range insFlds {
+		if ParsePat("$e.KeyperConfigIndex").Match(stripConv(t), Binds{}) {
+			cfgCol = name
+		}
+	}
+	keypersFrom := func(fi *FnInfo, fn *ssa.Function, t *Term) *Term {
+		if t == nil || t.Val == nil {
+			return nil
+		}
+		if mv := fi.mapViewOf(p, t, 0); mv != nil {
+			return mv.Elem
+		}
+		return nil
+	}
+	le, de := keypersFrom(lfi, live, lf["keypers"]), keypersFrom(dfi, load, df["keypers"])
+	okK := le != nil && de != nil && cfgCol != "" &&
+		ParsePat("DecodeAddress(GetBatchConfig(_, _, $e.KeyperConfigIndex)#0.Keypers[_])#0").Match(le, Binds{}) &&
+		ParsePat("DecodeAddress(GetBatchConfig(_, _, GetEon(_, _, $row.Eon)#0."+cfgCol+")#0.Keypers[_])#0").Match(de, Binds{})
+	c.Result(okK, rule, "loadDKG:keypers", p.siteOf(dsite), shortFn(load), "ActiveDKG.keypers after restart", "the restarted keyper list is not the decoded keyper list of the eon's own batch config: live="+termStr(le)+" restart="+termStr(de), "GetBatchConfig(GetEon(row.Eon)."+cfgCol+").Keypers, in order")
 }
